@@ -293,6 +293,21 @@ func (x *Exec) footprint(t *thread) []Acc {
 	return out
 }
 
+// CurrentThread returns the id of the harness thread the calling goroutine is (-1: none, or no exploration).
+func CurrentThread() int {
+	x := cur
+	if x == nil || !active.Load() {
+		return -1
+	}
+	g := goid()
+	x.mu.Lock()
+	defer x.mu.Unlock()
+	if t := x.byGoid[g]; t != nil {
+		return t.id
+	}
+	return -1
+}
+
 // Advance is called by a harness thread: the virtual clock moves forward by d
 // as one atomic scheduler action (timers that become due fire and their
 // goroutines run to their next point).
